@@ -52,7 +52,7 @@ def _nice_fraction(x: float) -> Fraction:
     g = f.limit_denominator(1000)
     if abs(float(g) - x) <= 1e-15 * max(1.0, abs(x)):
         return g
-    return f
+    return Fraction(repr(float(x)))  # shortest decimal that round-trips (1e-06 -> 1/10**6)
 
 
 def z3real(x):
@@ -76,11 +76,12 @@ def _is_num(x):
 class Sym:
     """Symbolic scalar (z3 Real or Int term)."""
 
-    __slots__ = ("t", "info")
+    __slots__ = ("t", "info", "intlike")
 
-    def __init__(self, t, info=None):
+    def __init__(self, t, info=None, intlike=False):
         self.t = t
         self.info = info
+        self.intlike = intlike
 
     # -- helpers
     @property
@@ -198,6 +199,10 @@ class Sym:
         b = Sym._lift(o)
         if b is None:
             return NotImplemented
+        if self.info is not None and self.info[0] == "sqrt" and _is_num(o) and float(o) >= 0:
+            # w = sqrt(e) (w >= 0, w*w = e) against a non-negative constant c:  w ~ c  <=>  e ~ c*c
+            c = _nice_fraction(float(o)) if isinstance(o, (float, _np.floating)) else Fraction(int(o))
+            return SymBool(fn(self.info[1].real(), z3.RealVal(c * c)))
         if self.is_int and b.is_int:
             return SymBool(fn(self.t, b.t))
         return SymBool(fn(self.real(), b.real()))
@@ -252,13 +257,17 @@ class Sym:
     def conj(self): return self
 
     def floor(self):
-        if self.is_int:
+        if self.is_int or self.intlike:
             return self
+        if _EX is not None and _EX.fresh_rounding:
+            return _EX.fresh_round("floor", self)
         return Sym(z3.ToInt(self.t), info=("floor", self))
 
     def ceil(self):
-        if self.is_int:
+        if self.is_int or self.intlike:
             return self
+        if _EX is not None and _EX.fresh_rounding:
+            return _EX.fresh_round("ceil", self)
         return Sym(-z3.ToInt(-self.t), info=("ceil", self))
 
     def rint(self):
@@ -406,6 +415,25 @@ class Explorer:
         self._n = 0
         self.stats = dict(paths=0, pruned=0, unknown_branches=0, solver_s=0.0, branch_queries=0)
         self._fresh_cache = {}
+        self.fresh_rounding = False   # floor/ceil as fresh real symbols with sliceable IsInt axiom
+        self.rounding = {}            # name -> (kind, argument term)
+        self.drop_isint = False
+
+    def fresh_round(self, kind, x: Sym):
+        key = (kind, x.t.sexpr())
+        if key in self._fresh_cache:
+            return self._fresh_cache[key]
+        c, name = self.fresh(kind)
+        c.intlike = True
+        c.info = (kind, x)
+        xr = x.real()
+        if kind == "floor":
+            self.defs[name] = [c.t <= xr, c.t > xr - 1, z3.IsInt(c.t)]
+        else:
+            self.defs[name] = [c.t >= xr, c.t < xr + 1, z3.IsInt(c.t)]
+        self.rounding[name] = (kind, xr)
+        self._fresh_cache[key] = c
+        return c
 
     # ---- fresh symbols
     def fresh(self, prefix, sort="real"):
@@ -427,6 +455,7 @@ class Explorer:
                     self._fresh_cache[key] = r
                     return r
         w, name = self.fresh("sqrt")
+        w.info = ("sqrt", Sym(et))
         self.defs[name] = [w.t >= 0, w.t * w.t == et]
         self._fresh_cache[key] = w
         return w
@@ -447,6 +476,8 @@ class Explorer:
                 continue
             seen.add(v)
             for ax in self.defs.get(v, ()):
+                if self.drop_isint and z3.is_app(ax) and ax.decl().kind() == z3.Z3_OP_IS_INT:
+                    continue
                 axioms.append(ax)
                 todo.extend(_free_vars(ax))
         return axioms
@@ -499,7 +530,7 @@ class Explorer:
             return t.as_long()
         if z3.is_rational_value(t) and t.denominator_as_long() == 1:
             return t.numerator_as_long()
-        if not v.is_int:
+        if not (v.is_int or v.intlike):
             raise SymUnsupported("index from non-integer term %s" % t)
         # replay from prefix: decisions for ints are stored as ('int', value)
         if self._pos < len(self._prefix):
@@ -523,7 +554,8 @@ class Explorer:
                 if str(r) == "unknown":
                     self.stats["unknown_branches"] += 1
                 break
-            val = s.model().eval(t, model_completion=True).as_long()
+            mv = s.model().eval(t, model_completion=True)
+            val = mv.as_long() if z3.is_int_value(mv) else int(model_value(s.model(), t))
             vals.append(val)
             s.add(t != val)
         else:
@@ -656,7 +688,7 @@ def register_symtype(t):
 def to_int(v):
     """C/numpy ``astype(int)`` of one scalar."""
     if isinstance(v, Sym):
-        return v if v.is_int else Sym(z3.simplify(v.trunc().t))
+        return v if (v.is_int or v.intlike) else Sym(z3.simplify(v.trunc().t))
     if hasattr(v, "to_int"):
         return v.to_int()
     return int(v)
@@ -935,6 +967,49 @@ class SymNumpy:
             return _np.fmod(x, y)
         # C fmod: sign of dividend; callers use it on positive values (x + 7.0)
         return _map(lambda v: (v - y * Sym(z3.ToReal(z3.ToInt((v / y).real()))) if isinstance(v, Sym) else math.fmod(v, y)), x)
+
+    def where(self, cond, *a):
+        if not has_sym(cond):
+            return _np.where(cond, *a)
+        if a:
+            raise SymUnsupported("three-argument where on symbolic condition")
+        cond = _np.asarray(cond, dtype=object)
+        if cond.ndim != 1:
+            raise SymUnsupported("where on non-1D symbolic condition")
+        return (_np.array([i for i in range(len(cond)) if bool(cond[i])], dtype=int),)
+
+    def arange(self, *a, **k):
+        a = [int(x) if isinstance(x, Sym) else x for x in a]
+        return _np.arange(*a, **k)
+
+    def maximum(self, a, b):
+        return self._minmax(a, b, True)
+
+    def minimum(self, a, b):
+        return self._minmax(a, b, False)
+
+    def _minmax(self, a, b, is_max):
+        if not (has_sym(a) or has_sym(b)):
+            return (_np.maximum if is_max else _np.minimum)(defloat(a), defloat(b))
+        a = _np.asarray(a, dtype=object)
+        b = _np.asarray(b, dtype=object)
+        a, b = _np.broadcast_arrays(a, b)
+        out = _np.empty(a.shape, dtype=object)
+        for idx in _np.ndindex(a.shape):
+            x, y = a[idx], b[idx]
+            inf = float("inf")
+            if _is_num(x) and abs(float(x)) == inf:
+                out[idx] = y if (float(x) < 0) == is_max else x
+            elif _is_num(y) and abs(float(y)) == inf:
+                out[idx] = x if (float(y) < 0) == is_max else y
+            elif isinstance(x, Sym) or isinstance(y, Sym):
+                xs, ys = Sym._lift(x), Sym._lift(y)
+                both_int = (xs.is_int or xs.intlike or _is_num(x) and float(x) == int(x)) and (ys.is_int or ys.intlike or _is_num(y) and float(y) == int(y))
+                xr, yr = xs.real() if not (xs.is_int and ys.is_int) else xs.t, ys.real() if not (xs.is_int and ys.is_int) else ys.t
+                out[idx] = Sym(z3.If(xr >= yr, xr, yr) if is_max else z3.If(xr <= yr, xr, yr), intlike=bool(both_int))
+            else:
+                out[idx] = max(x, y) if is_max else min(x, y)
+        return out.view(OArr)
 
     def vdot(self, a, b):
         if not (has_sym(a) or has_sym(b)):
